@@ -73,3 +73,11 @@ TEXT = {
         "level_note": "Trusted: the simulator (simrt scheduler, instrumenter completeness as checked at run time), testing/synctest's fake clock, io.Pipe; OS processes/signals are stubbed by killable in-process peers. The schedule space is sampled, not enumerated.",
     },
 }
+
+
+# manifest texts contributed as separate files: tools/manifest_extra_<ID>.py defines TEXT_ENTRY = {...}
+import glob as _glob, os as _os
+for _f in sorted(_glob.glob(_os.path.join(_os.path.dirname(_os.path.abspath(__file__)), "manifest_extra_*.py"))):
+    _ns = {}
+    exec(open(_f).read(), _ns)
+    TEXT[_os.path.basename(_f)[len("manifest_extra_"):-3]] = _ns["TEXT_ENTRY"]
